@@ -379,13 +379,13 @@ def repo_code_objects(extra=()):
     return out + list(extra)
 
 
-def enable_line_events(sched):
+def enable_line_events(sched, codes=None):
     mon = sys.monitoring
     if not _line_state["installed"]:
         mon.use_tool_id(TOOL_ID, "verif-sched")
         mon.register_callback(TOOL_ID, mon.events.LINE, _line_cb)
         _line_state["installed"] = True
-    codes = repo_code_objects()
+    codes = list(codes) if codes is not None else repo_code_objects()
     for c in codes:
         mon.set_local_events(TOOL_ID, c, mon.events.LINE)
     _line_state["codes"] = codes
